@@ -1,12 +1,14 @@
 #!/bin/bash
-# reeval_all.sh [budget]: re-applies every kept seeded change to /repo in turn and runs the check(s) that are
+# reeval_all.sh [budget] [id-regex]: re-applies every kept seeded change to /repo in turn and runs the check(s) that are
 # recorded as catching it (meta.json "ran": every "vsim check <id> -> VIOLATION"); prints one line per
 # change and a summary of those no longer caught. /repo must be clean; it is restored after every change.
 B=${1:-40}
+PAT=${2:-}
 cd /verif
 miss=0
 for d in seeded/*/; do
   id=$(basename $d)
+  [ -n "$PAT" ] && ! echo "$id" | grep -Eq "$PAT" && continue
   props=$(python3 - "$d" <<'PY'
 import json,re,sys
 m=json.load(open(sys.argv[1]+'meta.json'))
@@ -14,11 +16,13 @@ txt=' '.join(m['ran'])
 ps=[]
 for mm in re.finditer(r'vsim check (C\d\d)((?: and C\d\d)*) -> (?:first missed[^:]*: )?(?:VIOLATION|[a-z-]+)', txt):
     pass
-# every check named in front of a "->" whose right-hand side reports a VIOLATION or a kind
-for mm in re.finditer(r'vsim check ((?:C\d\d)(?:(?:,| and) C\d\d)*) -> ([^;]*)', txt):
-    rhs=mm.group(2)
-    if 'VIOLATION' in rhs or re.match(r'(same|stuck|[a-z]+-[a-z-]+)', rhs):
-        ps+=re.findall(r'C\d\d', mm.group(1))
+# every "vsim check <ids> ..." segment that reports a VIOLATION (or lists kinds) and is not a "stays quiet" remark
+for seg in txt.split('vsim check ')[1:]:
+    head=re.match(r'((?:C\d\d)(?:(?:,| and) C\d\d)*)', seg)
+    if not head: continue
+    if 'stays quiet' in seg.split('. ')[0] or 'stay quiet' in seg.split('. ')[0]: continue
+    if 'VIOLATION' in seg or re.search(r'-> (?:same|stuck|[a-z]+-[a-z-]+)', seg):
+        ps+=re.findall(r'C\d\d', head.group(1))
 seen=[]
 for p in ps:
     if p not in seen: seen.append(p)
